@@ -176,18 +176,18 @@ func runTour(cfg *RunCfg, sysName string, salt int64, keyMode int, tour []Step) 
 }
 
 type ReplaySummary struct {
-	Tours      int                 `json:"tours"`
-	Executions int                 `json:"executions"` // tour x system x keymode
-	Steps      int                 `json:"steps"`
-	PerSystem  map[string]int      `json:"per_system"`
-	OpsSeen    map[string]int      `json:"ops_seen"`
-	Mismatches []*Mismatch         `json:"mismatches"`          // confirmed, unknown
-	Known      map[string]int      `json:"known"`               // finding id -> count
-	KnownEx    map[string]*Mismatch `json:"known_examples"`
-	Unconfirmed int                `json:"unconfirmed"`
-	Samples    []json.RawMessage   `json:"samples"`
-	SigCounts  map[string]int      `json:"signature_counts"`
-	WallS      float64             `json:"wall_s"`
+	Tours       int                  `json:"tours"`
+	Executions  int                  `json:"executions"` // tour x system x keymode
+	Steps       int                  `json:"steps"`
+	PerSystem   map[string]int       `json:"per_system"`
+	OpsSeen     map[string]int       `json:"ops_seen"`
+	Mismatches  []*Mismatch          `json:"mismatches"` // confirmed, unknown
+	Known       map[string]int       `json:"known"`      // finding id -> count
+	KnownEx     map[string]*Mismatch `json:"known_examples"`
+	Unconfirmed int                  `json:"unconfirmed"`
+	Samples     []json.RawMessage    `json:"samples"`
+	SigCounts   map[string]int       `json:"signature_counts"`
+	WallS       float64              `json:"wall_s"`
 }
 
 // replayTours reads tours (one JSON-string-encoded array per line, as TLC's
